@@ -21,6 +21,7 @@ FIXED = ["0.0", "1.5", "-2.25", "+3.125", "10.0001", "-0.5", "123.456", "0.001"]
 EXPO = ["1e3", "1.5E-2", "-2.5e+3", "6E0", "1.25e-10", "-7.5E2"]
 ODD = [".5", "5.", "-.5", "+.25", "-5.", "0.", ".0"]
 NULLS = ["-999.25", "-999.2500", "-9.9925E2", "-999.250"]
+TEXTCELLS = ["#N/A", "#DIV/0!", "#VALUE!", "abc", "N/A", "1#2", "#", "n#a", "SAND"]
 SEPS = [" ", "  ", "\t", " \t", "    ", "\t\t"]
 LEADS = ["", " ", "   ", "\t", "  \t"]
 TRAILS = ["", " ", "   ", "\t"]
@@ -126,6 +127,8 @@ class C02(Prop):
         nr = 1 if 0.1 < shape < 0.3 else g.randint(1, 9)
         if g.random() < 0.05:
             nr = g.randint(18, 30)
+        elif g.random() < 0.03:
+            nr = 0                     # a data section without any row (title only), possibly followed by other sections
         rows = []
         dlm = g.choice([None, None, "SPACE", "TAB"])
         seps = [s for s in SEPS if "\t" in s] + ["\t ", " \t "] if dlm == "TAB" else SEPS
@@ -136,6 +139,14 @@ class C02(Prop):
             rows.append({"cells": [gen_cell(g, j, i) for j in range(nc)], "lead": l, "sep": sp, "trail": t})
             if dlm != "TAB" and nc >= 3 and g.random() < 0.2:
                 rows[-1]["seps"] = [g.choice([" ", "\t", "  ", " \t", "\t "]) for _ in range(nc - 1)]     # blanks and tabs mixed on one line
+        if nc >= 2 and g.random() < 0.1:
+            # a column with non-numeric tokens (spreadsheet error markers start with '#'): the fast engine cannot take it,
+            # the result must still be what the reference engine returns
+            jt = g.randrange(1, nc)
+            allrows = g.random() < 0.5
+            for row in rows:
+                if allrows or g.random() < 0.5:
+                    row["cells"][jt] = g.choice(TEXTCELLS)
         noise = []
         if g.random() < 0.6:
             for _ in range(g.randint(1, 4)):
@@ -147,11 +158,14 @@ class C02(Prop):
             tail = [list(t) for t in g.sample(TAILS[:3], g.randint(1, 2))]
         elif r < 0.6:
             pre = [list(g.choice(TAILS[:3]))]
+        elif r < 0.64:
+            # a very long physical line ahead of the data section (longer than any I/O buffer)
+            pre = [["~Other", "long " * g.choice([1700, 2000, 4000]), "short"]]
         cfg = draw_read_channel(g, ascii_only=True)
         null = "-999.25"
         if g.random() < 0.25:
             # a NULL value that also occurs in the index column (index samples are never nulled) or as an ordinary cell
-            null = g.choice([rows[g.randrange(nr)]["cells"][0], "0", "7", "1.5", "100", "101.0"])
+            null = g.choice(([rows[g.randrange(nr)]["cells"][0]] if nr else []) + ["0", "7", "1.5", "100", "101.0"])
         delta = g.choice([-2, -1, 1, 2, 3]) if g.random() < 0.15 else 0
         return {"declared_delta": delta, "null": null, "case": g.choice(["upper", "upper", "lower", "preserve"]), "nkw": neutral_read_kw(g, exclude=("null_policy", "dtypes")), "ncols": nc, "rows": rows, "noise": noise, "title": g.choice(TITLES), "tail": tail, "pre": pre,
                 "final_newline": g.random() < 0.6, "vers": g.choice([1.2, 2.0]), "dlm": dlm, "channel": cfg,
